@@ -85,6 +85,13 @@ func runDPT(e *Env) {
 		sc.MaxSteps = 60000
 	})
 
+	if e.Choose("wl.junkfirst", 2) == 1 {
+		// an application may well ask for a name the registry does not have before it does anything
+		// else (what the registry builds lazily is then built after a failed lookup)
+		if d, ok := dpt.Produce("0.000"); ok || d != nil {
+			e.Violate("C19", "unknown-name-produced", "Produce(\"0.000\") did not report the name as unknown")
+		}
+	}
 	names := dpt.ListSupportedTypes()
 	sort.Strings(names)
 	// static clauses (once per run): names well formed, unique, producible, correctly typed; every
@@ -183,7 +190,11 @@ func runDPT(e *Env) {
 						continue
 					}
 					in := mine[e.Choose("wl.inst", len(mine))]
-					payload := make([]byte, len(in.want))
+					plen := len(in.want)
+					if e.Choose("wl.longer", 4) == 0 {
+						plen += 1 + e.Choose("wl.longerby", 14) // (variable-length types; the others turn it down)
+					}
+					payload := make([]byte, plen)
 					for j := range payload {
 						payload[j] = byte(e.Choose("wl.byte", 256))
 					}
@@ -204,6 +215,15 @@ func runDPT(e *Env) {
 					}
 					in.want = in.d.Pack()
 					in.str = in.d.String()
+					// the caller's buffer is the caller's: reused for the next telegram at once
+					for j := range payload {
+						payload[j] ^= 0x5a
+					}
+					if got := in.d.Pack(); !bytes.Equal(got, in.want) {
+						e.Violate("C19", "instance-aliases-payload", "caller %d: instance of %s changed from %x to %x when the buffer it had been decoded from was overwritten", k, in.name, in.want, got)
+					} else if st := in.d.String(); st != in.str {
+						e.Violate("C19", "instance-aliases-payload", "caller %d: instance of %s renders %q instead of %q after the buffer it had been decoded from was overwritten", k, in.name, st, in.str)
+					}
 				case op < 8: // an unknown name
 					junk := []string{"", "1", "1.", ".001", "1.0011", "01.001", "1.001 ", "999.999", "dpt", "1,001", "0.000", "1.1", "9.0010"}[e.Choose("wl.junk", 13)]
 					if e.Choose("wl.junk2", 2) == 0 {
